@@ -17,6 +17,7 @@ import NeoModel.Proofs.TokensVoter
 import NeoModel.Proofs.TokensPersist
 import NeoModel.Proofs.TokensWitness
 import NeoModel.Proofs.TokensChain
+import NeoModel.Proofs.TokensReentry
 namespace NeoModel.Tokens
 
 /-- What `Inv` says, in the property's words: the NEO supply is exactly 100 000 000 and equals the sum of the
@@ -574,6 +575,41 @@ example :
     (designateNotary e {} [14, 13] true).map (fun l => (l.notaryNodes, l.notaryHeight)) = some ([13, 14], 6) ∧
     designateNotary e { notaryHeight := 6 } [14] true = none ∧ designateNotary e {} [14, 14] true = none ∧
     designateNotary e {} [] true = none ∧ designateNotary e {} [14] false = none := by decide
+
+/-! ## re-entrant receivers: the account items are written before a payment callback runs -/
+
+/-- `vote_reward_after_save`: when a vote pays a GAS reward to a voter contract whose callback makes further native
+calls, the callback starts on a ledger that already holds the voter's account item with the new vote (`votePre`
+stored it before the mint, native_neo.go:1097 then 1110-1112) — what the callee does to its own NEO account is
+applied on top of the finished vote, never overwritten by it. -/
+theorem vote_reward_after_save (s : St) (acc : Nat) (pub caller : Option Nat) (l l' : Ledger) (g : Int)
+    (hf : s.failing = false)
+    (hv : votePre s.env s.cur acc pub (witOf s.env acc caller s.env.neoC) = (l, true, some g))
+    (hm : mintGasCb s.env l acc g = some l') (hg : g ≠ 0) :
+    (exec s (.vote acc pub caller true)).cbs = ⟨none, none⟩ :: s.cbs ∧
+    (exec s (.vote acc pub caller true)).cur = l' ∧ l'.neo = l.neo ∧ ∃ a, get l'.neo acc = some a ∧ a.vote = pub :=
+  vote_reward_callback_sees_saved_account s acc pub caller l l' g hf hv hm hg
+
+/-- `transfer_callback_after_update`: when a transfer pays a contract that calls back, the callback starts on the
+ledger `transferPre` left (both account items updated, notification emitted) and the GAS rewards of both sides wait
+in the frame until it has returned. -/
+theorem transfer_callback_after_update (s : St) (t : Tok) (l : Ledger) (src dst : Nat) (amt : Int) (data : Data)
+    (d1 d2 : Option (Nat × Int)) (h1 : dst ≠ s.env.notary) (h2 : dst ≠ s.env.neoC) (hb : l.blocked.contains dst = false) :
+    (afterPosted s t l src dst amt .cb data d1 d2).cur = l ∧
+    (afterPosted s t l src dst amt .cb data d1 d2).cbs = ⟨d1, d2⟩ :: s.cbs :=
+  transfer_callback_sees_updated_accounts s t l src dst amt data d1 d2 h1 h2 hb
+
+-- non-vacuity: contract 50 (100 NEO since block 1) votes for key 7 in block 9; its reward callback transfers 1 NEO of its
+-- own account to 3: after the nested transfer it has 99 NEO, still votes for 7, and the supply is the sum of balances
+example :
+    let e : Env := { notary := 90, neoC := 91, gasC := 92, csize := 1, vcount := 1, attrFee := 0, index := 9,
+                     contracts := [(50, .wallet)] }
+    let l : Ledger := { neo := [(50, { bal := 100, height := 1 }), (4, { bal := 99999900, height := 1 })], neoSupply := 100000000,
+                        cands := [(7, ⟨true, 0⟩)], gpb := [(0, 500000000)] }
+    let s := run (initSt e l) [.txBegin 4 [⟨4, 128, [], []⟩], .vote 50 (some 7) (some 50) true,
+      .transfer .neo 50 3 1 (some 50) .null .other, .endCb, .txEnd false]
+    s.last = some [.t] ∧ (get s.cur.neo 50).map (fun a => (a.bal, a.vote)) = some (99, some 7) ∧
+    (get s.cur.neo 3).map (·.bal) = some 1 ∧ get s.cur.cands 7 = some ⟨true, 99⟩ ∧ s.cur.voters = 99 := by decide
 
 /-! ## contracts blocked by Policy -/
 
